@@ -749,7 +749,9 @@ class Fingerprint(str):
 class SorteDeque(collections.deque):
     """A deque subclass that tries to maintain sorted ordering using bisect"""
     def insort(self, item):
-        i = bisect.bisect_left(self, item)
+        # insert after any items that compare equal, so that items with equal keys (e.g. signatures created in the
+        # same second) keep the order in which they were added - a copy or a re-import then exports identically
+        i = bisect.bisect_right(self, item)
         self.rotate(- i)
         self.appendleft(item)
         self.rotate(i)
